@@ -3,7 +3,7 @@
 use std::fmt;
 use std::ops::Add;
 
-#[derive(Clone, PartialEq, Eq, Hash, PartialOrd, Ord)]
+#[derive(Clone, PartialEq, Eq, PartialOrd, Ord)]
 pub enum V {
   I(i64),
   B(bool),
@@ -25,6 +25,48 @@ impl E {
       E::E1 => E::E0,
     }
   }
+}
+
+/// `Hash` is deliberately *coarser* than `Eq` (2k and 2k+1 collide, as do a
+/// list and its sum): legal — equal values hash equally — and it makes anything
+/// in the library that mistakes a hash for an identity (hash-only `distinct`,
+/// `group_by` keyed on a digest) visible.
+impl std::hash::Hash for V {
+  fn hash<H: std::hash::Hasher>(&self, state: &mut H) {
+    if PRECISE_HASH.with(|p| p.get()) {
+      // the engine's own outcome fingerprints want the full structure
+      match self {
+        V::I(n) => {
+          state.write_u8(0);
+          state.write_i64(*n);
+        }
+        V::B(b) => {
+          state.write_u8(1);
+          state.write_u8(*b as u8);
+        }
+        V::U => state.write_u8(2),
+        V::P(a, b) => {
+          state.write_u8(3);
+          a.hash(state);
+          b.hash(state);
+        }
+        V::L(l) => {
+          state.write_u8(4);
+          state.write_usize(l.len());
+          for x in l {
+            x.hash(state);
+          }
+        }
+      }
+    } else {
+      state.write_i64(self.num().div_euclid(2));
+    }
+  }
+}
+
+thread_local! {
+  /// set by the runner while it fingerprints an outcome
+  pub static PRECISE_HASH: std::cell::Cell<bool> = std::cell::Cell::new(false);
 }
 
 impl Default for V {
